@@ -53,30 +53,124 @@ const TITLE_WORDS: [u16; 5] = [200, 201, 202, 203, 204];
 struct Corpus {
     docs: Vec<MDoc>,
     body_opt: IndexRecordOption,
+    /// how the focus words were spread over the documents (for witnesses)
+    presence: Vec<String>,
 }
 
-fn gen_corpus(rng: &mut Rng, table: &[u32; 256], cap_id: usize, budget: usize) -> Corpus {
+/// width of the document window of tantivy's buffered union scorer (64 * 64 documents): per-slot
+/// scorer state is reused from one window to the next, so segments are made to span several
+const WINDOW: usize = 4096;
+
+#[derive(Clone, Copy, PartialEq, Eq, Debug)]
+enum Profile {
+    /// up to 500 documents, field lengths across the reachable field-norm buckets
+    Small,
+    /// more documents than one union window per segment (short fields), terms that are dense,
+    /// rare, or confined to a few doc-id ranges placed on window boundaries
+    Large,
+}
+
+/// which documents contain a focus word
+enum Presence {
+    /// every document with probability num/den
+    Uniform(u64, u64),
+    /// only documents of a few index ranges (start, end, per-mille inside the range): long gaps
+    Clustered(Vec<(usize, usize, u64)>),
+}
+
+impl Presence {
+    fn hit(&self, rng: &mut Rng, i: usize) -> bool {
+        match self {
+            Presence::Uniform(num, den) => rng.chance(*num, *den),
+            Presence::Clustered(cs) => match cs.iter().find(|(a, b, _)| *a <= i && i < *b) {
+                Some((_, _, pm)) => rng.chance(*pm, 1000),
+                None => false,
+            },
+        }
+    }
+
+    fn describe(&self) -> String {
+        match self {
+            Presence::Uniform(num, den) => format!("{num}/{den}"),
+            Presence::Clustered(cs) => format!(
+                "ranges{:?}",
+                cs.iter().map(|(a, b, pm)| format!("{a}..{b}@{pm}pm")).collect::<Vec<_>>()
+            ),
+        }
+    }
+}
+
+fn large_presence(rng: &mut Rng, n: usize) -> Presence {
+    if rng.chance(2, 3) {
+        Presence::Uniform(*rng.pick(&[900u64, 600, 300, 100, 30, 5, 1]), 1000)
+    } else {
+        let k = rng.urange(1, 3);
+        let mut cs = vec![];
+        for _ in 0..k {
+            let start = if rng.bool() {
+                // on / next to a window boundary (0 included)
+                let w = rng.usize_below(n / WINDOW + 1) * WINDOW;
+                (w + rng.usize_below(5)).saturating_sub(2)
+            } else {
+                rng.usize_below(n)
+            };
+            let len = *rng.pick(&[1usize, 2, 5, 40, 300, 1500]);
+            cs.push((start.min(n - 1), (start + len).min(n), *rng.pick(&[1000u64, 700, 300])));
+        }
+        Presence::Clustered(cs)
+    }
+}
+
+fn gen_corpus(rng: &mut Rng, table: &[u32; 256], p: &Params) -> Corpus {
+    let (cap_id, budget) = (p.cap_id, p.budget);
+    let large = p.profile == Profile::Large;
     let body_opt = if rng.chance(3, 4) {
         IndexRecordOption::WithFreqsAndPositions
     } else {
         IndexRecordOption::WithFreqs
     };
-    let n = match rng.weighted(&[3, 4, 2]) {
-        0 => rng.urange(3, 40),
-        1 => rng.urange(40, 200),
-        _ => rng.urange(200, 500),
+    let n = if large {
+        match rng.weighted(&[3, 3, 2, 3]) {
+            0 => WINDOW + rng.urange(1, 300),          // a little into the second window
+            1 => 2 * WINDOW - 2 + rng.urange(0, 300),  // around the end of the second window
+            2 => (3 * WINDOW - 2 + rng.urange(0, 100)).min(p.max_docs),
+            _ => rng.urange(WINDOW + 300, p.max_docs),
+        }
+    } else {
+        match rng.weighted(&[3, 4, 2]) {
+            0 => rng.urange(3, 40),
+            1 => rng.urange(40, 200),
+            _ => rng.urange(200, 500),
+        }
     };
     let mut used = 0usize;
     let mut docs = Vec::with_capacity(n);
     // document-level probabilities of the focus words (shared by the corpus => document frequencies)
-    let probs: Vec<u64> = FOCUS.iter().map(|_| *rng.pick(&[90u64, 60, 30, 10, 3])).collect();
+    let probs: Vec<Presence> = FOCUS
+        .iter()
+        .map(|_| {
+            if large {
+                large_presence(rng, n)
+            } else {
+                Presence::Uniform(*rng.pick(&[90u64, 60, 30, 10, 3]), 100)
+            }
+        })
+        .collect();
     for i in 0..n {
         let mut d = MDoc::empty(i as u64 + 1);
         // length: on / next to a bucket boundary of the field-norm code
-        let id = match rng.weighted(&[10, 5, 2]) {
-            0 => rng.urange(0, 48),
-            1 => rng.urange(40, 90.min(cap_id)),
-            _ => rng.urange(0, cap_id),
+        let id = if large {
+            match rng.weighted(&[12, 3, 1]) {
+                0 => rng.urange(1, 24),
+                1 => rng.urange(24, 48),
+                _ => rng.urange(40, 72.min(cap_id)),
+            }
+        } else {
+            match rng.weighted(&[10, 5, 2]) {
+                0 => rng.urange(0, 48),
+                1 => rng.urange(40, 90.min(cap_id)),
+                _ => rng.urange(0, cap_id),
+            }
         };
         let base = table[id] as usize;
         let next = table[(id + 1).min(255)] as usize;
@@ -87,7 +181,7 @@ fn gen_corpus(rng: &mut Rng, table: &[u32; 256], cap_id: usize, budget: usize) -
             _ => base + rng.usize_below((next - base).max(1)),
         };
         if used + len > budget {
-            len = rng.urange(0, 30);
+            len = rng.urange(0, if large { 12 } else { 30 });
         }
         used += len;
         if rng.chance(1, 25) {
@@ -97,7 +191,7 @@ fn gen_corpus(rng: &mut Rng, table: &[u32; 256], cap_id: usize, budget: usize) -
         let present: Vec<u16> = FOCUS
             .iter()
             .zip(probs.iter())
-            .filter(|(_, p)| rng.chance(**p, 100))
+            .filter(|(_, p)| p.hit(rng, i))
             .map(|(w, _)| *w)
             .collect();
         let density = *rng.pick(&[1u64, 3, 10, 30, 60]);
@@ -122,7 +216,11 @@ fn gen_corpus(rng: &mut Rng, table: &[u32; 256], cap_id: usize, budget: usize) -
         d.tag = rng.below(5) as u8;
         docs.push(d);
     }
-    Corpus { docs, body_opt }
+    Corpus {
+        docs,
+        body_opt,
+        presence: probs.iter().map(|p| p.describe()).collect(),
+    }
 }
 
 // ---------------------------------------------------------------------------------------------
@@ -190,8 +288,69 @@ fn bool_of(rng: &mut Rng, pb: bool, allow_nested: bool) -> Q {
     Q::Bool(cs)
 }
 
-fn gen_query(rng: &mut Rng, pb: bool) -> (Q, &'static str) {
-    match rng.weighted(&[5, 4, 6, 3, 3, 5, 3]) {
+const TIES: [f32; 5] = [0.0, 0.1, 0.3, 0.5, 1.0];
+
+/// unions whose clauses are themselves unions, and wide disjunction-max queries: every clause
+/// combiner (sum / max + tie breaker) below and above another one
+fn union_of_unions(rng: &mut Rng, pb: bool) -> Q {
+    let dm = |rng: &mut Rng| {
+        let n = rng.urange(2, 3);
+        Q::DisMax((0..n).map(|_| leaf(rng, pb)).collect(), *rng.pick(&TIES))
+    };
+    match rng.below(4) {
+        0 => {
+            // should-boolean over disjunction-max clauses and leaves
+            let mut cs = vec![(Occur::Should, dm(rng)), (Occur::Should, leaf(rng, pb))];
+            if rng.bool() {
+                cs.push((Occur::Should, dm(rng)));
+            }
+            Q::Bool(cs)
+        }
+        1 => {
+            // disjunction-max over a should-boolean, a leaf and a boosted leaf
+            let n = rng.urange(2, 3);
+            let b = Q::Bool((0..n).map(|_| (Occur::Should, leaf(rng, pb))).collect());
+            let l = leaf(rng, pb);
+            let bl = leaf(rng, pb);
+            let bl = boosted(rng, bl);
+            Q::DisMax(vec![b, l, bl], *rng.pick(&TIES))
+        }
+        2 => {
+            // wide disjunction-max of terms of both fields
+            let n = rng.urange(3, 5);
+            let ds = (0..n)
+                .map(|_| {
+                    if rng.chance(2, 3) {
+                        Q::term(TF::Body, *rng.pick(&FOCUS))
+                    } else {
+                        Q::term(TF::Title, *rng.pick(&TITLE_WORDS))
+                    }
+                })
+                .collect();
+            Q::DisMax(ds, *rng.pick(&TIES))
+        }
+        _ => {
+            // required clause (possibly rare: long seeks into the optional part) + optional
+            // disjunction-max, or a disjunction-max of disjunction-max
+            if rng.bool() {
+                Q::Bool(vec![
+                    (Occur::Must, Q::term(TF::Body, *rng.pick(&FOCUS))),
+                    (Occur::Should, dm(rng)),
+                ])
+            } else {
+                Q::DisMax(vec![dm(rng), leaf(rng, pb)], *rng.pick(&TIES))
+            }
+        }
+    }
+}
+
+fn gen_query(rng: &mut Rng, pb: bool, profile: Profile) -> (Q, &'static str) {
+    let weights: [u32; 8] = match profile {
+        Profile::Small => [5, 4, 6, 3, 3, 5, 3, 0],
+        Profile::Large => [2, 2, 6, 2, 1, 7, 4, 6],
+    };
+    match rng.weighted(&weights) {
+        7 => (union_of_unions(rng, pb), "union-of-unions"),
         0 => (
             if rng.chance(3, 4) {
                 Q::term(TF::Body, *rng.pick(&FOCUS))
@@ -362,6 +521,8 @@ struct Ev {
     v: f32,
     /// sum of the magnitudes of the leaf scores that went into `v` (scale of rounding errors)
     mag: f32,
+    /// number of scoring clauses that matched the document
+    k: u32,
 }
 
 fn phrase_count(tokens: &[u16], ws: &[u16]) -> u32 {
@@ -391,7 +552,7 @@ fn eval(q: &Q, boost: f32, c: &DocCtx) -> Option<Ev> {
             let tf = *per_seg[seg].get(&c.addr.doc_id)?;
             let (dl, avg) = field_stats(*f);
             let v = bm25(idf(*df, c.lay.n_docs), boost, tf, dl, avg);
-            Some(Ev { v, mag: v.abs() })
+            Some(Ev { v, mag: v.abs(), k: 1 })
         }
         Q::Phrase { f, ws } => {
             let toks = if *f == TF::Body { &c.mdoc.body } else { &c.mdoc.title };
@@ -406,19 +567,20 @@ fn eval(q: &Q, boost: f32, c: &DocCtx) -> Option<Ev> {
             }
             let (dl, avg) = field_stats(*f);
             let v = bm25(idf_sum, boost, count, dl, avg);
-            Some(Ev { v, mag: v.abs() })
+            Some(Ev { v, mag: v.abs(), k: 1 })
         }
         Q::Tag(_) | Q::All | Q::MinShould(..) => None, // not generated by this check
         Q::Boost(inner, b) => eval(inner, boost * *b, c),
         Q::Const(inner, s) => {
             eval(inner, boost, c)?;
             let v = boost * *s;
-            Some(Ev { v, mag: v.abs() })
+            Some(Ev { v, mag: v.abs(), k: 1 })
         }
         Q::Bool(cs) => {
             let has_must = cs.iter().any(|(o, _)| *o == Occur::Must);
             let mut sum = 0.0f32;
             let mut mag = 0.0f32;
+            let mut k = 0u32;
             let mut any_should = false;
             for (o, sub) in cs {
                 let e = eval(sub, boost, c);
@@ -429,11 +591,13 @@ fn eval(q: &Q, boost: f32, c: &DocCtx) -> Option<Ev> {
                     (Occur::Must, Some(e)) => {
                         sum += e.v;
                         mag += e.mag;
+                        k += e.k;
                     }
                     (Occur::Should, Some(e)) => {
                         any_should = true;
                         sum += e.v;
                         mag += e.mag;
+                        k += e.k;
                     }
                     (Occur::Should, None) => {}
                 }
@@ -441,12 +605,13 @@ fn eval(q: &Q, boost: f32, c: &DocCtx) -> Option<Ev> {
             if !has_must && !any_should {
                 return None;
             }
-            Some(Ev { v: sum, mag })
+            Some(Ev { v: sum, mag, k })
         }
         Q::DisMax(qs, tie) => {
             let mut max = 0.0f32;
             let mut sum = 0.0f32;
             let mut mag = 0.0f32;
+            let mut k = 0u32;
             let mut any = false;
             for sub in qs {
                 if let Some(e) = eval(sub, boost, c) {
@@ -454,6 +619,7 @@ fn eval(q: &Q, boost: f32, c: &DocCtx) -> Option<Ev> {
                     max = f32::max(e.v, max);
                     sum += e.v;
                     mag += e.mag;
+                    k += e.k;
                 }
             }
             if !any {
@@ -462,6 +628,7 @@ fn eval(q: &Q, boost: f32, c: &DocCtx) -> Option<Ev> {
             Some(Ev {
                 v: max + (sum - max) * *tie,
                 mag,
+                k,
             })
         }
     }
@@ -515,22 +682,43 @@ fn fx(x: f32) -> String {
 
 // ---------------------------------------------------------------------------------------------
 
+const LARGE_Q: usize = 48;
+const LARGE_T: usize = 400;
+
 struct Params {
+    profile: Profile,
     cap_id: usize,
     budget: usize,
     queries: usize,
+    /// upper bound of the number of documents of a corpus of the large profile
+    max_docs: usize,
 }
 
 fn case(case: u64, rng: &mut Rng, rep: &mut Report, p: &Params) {
     let table = my_fieldnorm_table();
-    let corpus = gen_corpus(rng, &table, p.cap_id, p.budget);
+    let corpus = gen_corpus(rng, &table, p);
     let sch = mk_schema(corpus.body_opt);
     let n = corpus.docs.len();
     let by_id = ids_to_docs(&corpus.docs);
     let pb = corpus.body_opt == IndexRecordOption::WithFreqsAndPositions;
-    // layouts: one segment; 1-2 random segmentations; sometimes merged; sometimes with deletes
+    // layouts: one segment; 1-2 random segmentations; sometimes merged; sometimes with deletes.
+    // Large profile: the one segment spans several union windows; the same documents are also
+    // indexed as chunks that all stay below one window (sometimes merged back into one segment)
+    let large = p.profile == Profile::Large;
     let mut specs: Vec<(String, Vec<usize>, Vec<u64>, usize)> = vec![("1-segment".into(), vec![], vec![], 0)];
-    let extra = rng.urange(1, 2);
+    if large {
+        let step = rng.urange(700, WINDOW - 1);
+        let cuts: Vec<usize> = (1..).map(|k| k * step).take_while(|c| *c < n).collect();
+        let nchunks = cuts.len() + 1;
+        let merge = if rng.chance(1, 3) { nchunks } else { 0 };
+        specs.push((
+            format!("{nchunks}-chunks-below-one-window{}", if merge > 0 { "+merge-all" } else { "" }),
+            cuts,
+            vec![],
+            merge,
+        ));
+    }
+    let extra = if large { 1 } else { rng.urange(1, 2) };
     for _ in 0..extra {
         let nseg = rng.urange(2, 8).min(n.max(1));
         let cuts = random_cuts(rng, n, nseg);
@@ -563,7 +751,8 @@ fn case(case: u64, rng: &mut Rng, rep: &mut Report, p: &Params) {
     rep.count("corpora", 1);
     rep.count("segmentations", layouts.len() as u64);
     let corpus_desc = json!({
-        "case": case, "docs": n, "body_index_option": format!("{:?}", corpus.body_opt),
+        "case": case, "profile": format!("{:?}", p.profile), "docs": n, "body_index_option": format!("{:?}", corpus.body_opt),
+        "focus_word_presence": corpus.presence,
         "layouts": layouts.iter().map(|l| json!({"name": l.name, "segments": l.nseg,
              "max_docs": l.searcher.segment_readers().iter().map(|s| s.max_doc()).collect::<Vec<_>>()})).collect::<Vec<_>>(),
         "max_body_len": corpus.docs.iter().map(|d| d.body.len()).max().unwrap_or(0),
@@ -598,7 +787,7 @@ fn case(case: u64, rng: &mut Rng, rep: &mut Report, p: &Params) {
         }
     }
     for qi in 0..p.queries {
-        let (q, qkind) = gen_query(rng, pb);
+        let (q, qkind) = gen_query(rng, pb, p.profile);
         let qdesc = q.describe();
         let query = q.to_query(&sch);
         let n_leaves = q.n_leaves().max(1);
@@ -711,9 +900,11 @@ fn case(case: u64, rng: &mut Rng, rep: &mut Report, p: &Params) {
                     }
                 }
                 rep.observe("fieldnorm_id_of_scored_doc", format!("{fid_seen:03}"));
+                // which window of the buffered union the document falls into (0 = first)
+                let win = (h.addr.doc_id as usize / WINDOW).min(3);
                 if max_tf > 1 || n_leaves >= 2 || l.nseg >= 2 {
                     rep.nontrivial(format!(
-                        "{qkind}|n{}|s{}|fn{}|tf{}",
+                        "{qkind}|n{}|s{}|w{win}|fn{}|tf{}",
                         n_leaves.min(4),
                         l.nseg,
                         fid_seen,
@@ -737,6 +928,13 @@ fn case(case: u64, rng: &mut Rng, rep: &mut Report, p: &Params) {
                         }
                     }
                     Some(e) => {
+                        if win >= 1 {
+                            rep.count("scored_docs_beyond_first_union_window", 1);
+                            if e.k >= 2 {
+                                rep.count("scored_docs_beyond_first_union_window_matching_several_clauses", 1);
+                                rep.observe("union_window_of_doc_matching_several_clauses", format!("{qkind}|w{win}"));
+                            }
+                        }
                         let tol = tolerance(n_leaves, boosts, &e);
                         if !((h.score - e.v).abs() <= tol) && reported < 3 {
                             reported += 1;
@@ -773,18 +971,35 @@ fn case(case: u64, rng: &mut Rng, rep: &mut Report, p: &Params) {
                 for _ in 0..12.min(m) {
                     picks.push(rng.usize_below(m));
                 }
+                // both sides of every union-window boundary inside a segment (explain seeks from
+                // the start of the segment: a seek further than one window for those documents)
+                let mut boundary_picks = 0;
+                for i in 1..m {
+                    let (a, b) = (hits[i - 1].addr, hits[i].addr);
+                    if a.segment_ord == b.segment_ord
+                        && a.doc_id as usize / WINDOW != b.doc_id as usize / WINDOW
+                        && boundary_picks < 8
+                    {
+                        boundary_picks += 1;
+                        picks.push(i - 1);
+                        picks.push(i);
+                    }
+                }
                 picks.sort_unstable();
                 picks.dedup();
                 for pi in picks {
                     let h = &hits[pi];
                     rep.count("explains", 1);
+                    if h.addr.doc_id as usize >= WINDOW {
+                        rep.count("explains_beyond_first_union_window", 1);
+                    }
                     match catch_search(|| query.explain(searcher, h.addr)) {
                         Ok(Ok(ex)) => {
                             let v = ex.value();
                             let ok = if is_bare_leaf(&q) {
                                 v.to_bits() == h.score.to_bits()
                             } else {
-                                let e = Ev { v: h.score, mag: h.score.abs() };
+                                let e = Ev { v: h.score, mag: h.score.abs(), k: 1 };
                                 (v - h.score).abs() <= tolerance(n_leaves, boosts, &e)
                             };
                             if !ok {
@@ -881,7 +1096,7 @@ fn case(case: u64, rng: &mut Rng, rep: &mut Report, p: &Params) {
                                 continue;
                             };
                             rep.count("scores_compared_across_collectors", 1);
-                            let e = Ev { v: es, mag: es.abs() };
+                            let e = Ev { v: es, mag: es.abs(), k: 1 };
                             let ok = if n_leaves == 1 {
                                 s.to_bits() == es.to_bits()
                             } else {
@@ -941,7 +1156,7 @@ fn case(case: u64, rng: &mut Rng, rep: &mut Report, p: &Params) {
                 }
                 for (id, sa) in bs {
                     let sb = os[id];
-                    let e = Ev { v: *sa, mag: sa.abs() };
+                    let e = Ev { v: *sa, mag: sa.abs(), k: 1 };
                     let ok = if n_leaves == 1 {
                         sa.to_bits() == sb.to_bits()
                     } else {
@@ -1032,12 +1247,24 @@ fn weight_api_case(_case: u64, rng: &mut Rng, rep: &mut Report) {
 fn main() {
     let ctx = Ctx::from_env("C12", "exploration");
     let p = Params {
+        profile: Profile::Small,
         cap_id: ctx.scale(122, 132),
         budget: ctx.scale(120_000, 250_000),
         queries: 10,
+        max_docs: 0,
     };
     let n = ctx.scale(100, 2000) as u64;
     let mut rep = run_cases(&ctx, "bm25", n, |c, rng, rep| case(c, rng, rep, &p));
+    // segments larger than the 4096-document window of the buffered union scorer
+    let pl = Params {
+        profile: Profile::Large,
+        cap_id: 72,
+        budget: ctx.scale(300_000, 600_000),
+        queries: 8,
+        max_docs: ctx.scale(13_000, 30_000),
+    };
+    let nl = ctx.scale(LARGE_Q, LARGE_T) as u64;
+    rep.merge(run_cases(&ctx, "bm25-large-segments", nl, |c, rng, rep| case(c, rng, rep, &pl)));
     rep.merge(run_cases(&ctx, "weight-api", ctx.scale(40, 1000) as u64, weight_api_case));
     let mut notes = BTreeMap::new();
     notes.insert("pairs", rep.counters.get("corpus_query_pairs").copied().unwrap_or(0));
